@@ -167,11 +167,12 @@ CLI_PATHS = '''def cli_paths(binary: bool, nmacros: int, exists: bool, name_kind
         mnames = ["m.yaml", "m.yaml"]
     src = 2 if binary else 1''' + CLI_BODY
 
-CLI_SPELL = '''def cli_spell(binary: bool, sp_p: int, sp_in: int, sp_m: int, nmacros: int, all_matches: bool, only_addr: bool) -> bool:
+CLI_SPELL = '''def cli_spell(binary: bool, sp_p: int, sp_in: int, sp_m: int, nmacros: int) -> bool:
     """
     pre: 0 <= sp_p <= 2 and 0 <= sp_in <= 2 and 0 <= sp_m <= 1 and 0 <= nmacros <= 1
     post: _
     """
+    all_matches, only_addr = True, True   # (their presence is symbolic in c20/cli and c20/cli_order)
     # every legal spelling of an option (short, long, long with '=') hands the SAME value to the library, also for file
     # names that contain '_', '-', '=' or blanks
     pn, inn, mn = "my_rule-v1.yaml", "dump_a=b c.s", "my_macros-x.yaml"
